@@ -174,7 +174,17 @@ func (e *Engine) ModSet(fn *ssa.Function) map[string]bool {
 			e.pointeeEffects(ms, sig.Params().At(i).Type())
 		}
 	} else {
-		e.instrsModSet(ms, fn, fn.Blocks, nil)
+		// stores into objects this function allocates itself (its own escaping variables included) write fresh
+		// memory: they cannot change any location that exists in the caller's state
+		own := map[*ssa.Alloc]bool{}
+		for _, b := range fn.Blocks {
+			for _, ins := range b.Instrs {
+				if a, ok := ins.(*ssa.Alloc); ok {
+					own[a] = true
+				}
+			}
+		}
+		e.instrsModSet(ms, fn, fn.Blocks, own)
 	}
 	delete(e.modsetBusy, fn)
 	e.modsets[fn] = ms
@@ -232,11 +242,24 @@ func (e *Engine) callModSet(ms map[string]bool, c *ssa.CallCommon, locals map[*s
 			if len(c.Args) > 0 {
 				e.pointeeEffects(ms, c.Args[0].Type())
 			}
+		case "close":
+			if len(c.Args) > 0 {
+				ms[e.classChanClosed(c.Args[0].Type())] = true
+			}
 		}
 		return
 	}
 	if callee := c.StaticCallee(); callee != nil {
 		if fc := e.Contracts[FuncKey(callee)]; fc != nil && fc.Has("pure") {
+			return
+		}
+		if full := callee.String(); strings.HasPrefix(full, "(*sync/atomic.") && !strings.HasSuffix(full, ").Load") {
+			// atomic cells are modelled as plain cells (externals.go): a Store/Swap/Add/CompareAndSwap writes that class
+			if strings.HasPrefix(full, "(*sync/atomic.Value).") {
+				ms["C|"+e.typeStr(emptyIface)] = true
+			} else if sig := callee.Signature; sig.Params().Len() > 0 {
+				ms["C|atomic_"+e.typeStr(sig.Params().At(sig.Params().Len()-1).Type())] = true
+			}
 			return
 		}
 		if !e.fnInModule(callee) && isNoEffectExternal(callee.String()) {
